@@ -234,7 +234,7 @@ pub fn bounds(tier: Tier) -> Bounds {
         Tier::Quick => Bounds {
             topo_nodes: n.unwrap_or(3),
             topo_classes: 3,
-            k3: false,
+            k3: true,
             large: false,
         },
         Tier::Thorough => Bounds {
